@@ -1,8 +1,8 @@
 """C10 - timing engine: Snap arithmetic, integration of beat length, snapping, sweep results in query order."""
 from fractions import Fraction
 
-from pyvc.dsl import contract, lemma, bounded, Int, Real, Bool, Obj, Const, Choice, ListT
-from pyvc.ghost import eqr, implies, ler
+from pyvc.dsl import contract, lemma, bounded, loop_unit, Ty, Int, Real, Bool, Obj, Const, Choice, ListT
+from pyvc.ghost import eqr, implies, ler, floor
 
 SNAP = "reamber.algorithms.timing.utils.snap:Snap"
 BCO = "reamber.algorithms.timing.utils.BpmChangeOffset:BpmChangeOffset"
@@ -34,7 +34,8 @@ def pos(s):
 # ----------------------------------------------------------------------------- Snap construction
 
 
-@contract("C10", SNAP, args=dict(measure=Int(), beat=Real("fraction"), metronome=Real("fraction")))
+@contract("C10", SNAP, args=dict(measure=Int(), beat=Real("fraction"), metronome=Real("fraction")),
+          returns=Obj(SNAP, build=lambda **k: None, measure=Int(), beat=Real("fraction"), metronome=Real("fraction")))
 class snap_post_init:
     """Snap(measure, beat, metronome): value-preserving normalisation for measure >= 0."""
 
@@ -133,3 +134,456 @@ class snap_offset:
         for _ in range(200):
             m = Fraction(rng.choice([3, 4, 5]))
             yield dict(self=_mk_snap(rng.randrange(4), Fraction(rng.randrange(0, int(m) * 4), 4), m), bpm_active=_mk_bco(rng.choice([60.0, 120.0, 177.5, 200.0]), m, float(rng.randrange(-500, 500))))
+
+
+# ----------------------------------------------------------------------------- tempo changes
+
+
+def _mk_bcs(bpm, metronome, snap):
+    from reamber.algorithms.timing.utils.BpmChangeSnap import BpmChangeSnap
+
+    o = BpmChangeSnap.__new__(BpmChangeSnap)
+    o.bpm, o.metronome, o.snap = bpm, metronome, snap
+    return o
+
+
+def BcsT():
+    return Obj(BCS, build=_mk_bcs, bpm=Real(), metronome=Real("fraction"), snap=SnapT())
+
+
+def wf_bcs(b):
+    """A well-formed tempo change in snap form."""
+    return b.bpm > 0 and b.metronome > 0 and normal(b.snap) and b.snap.metronome == b.metronome
+
+
+def beats_between(parent, child):
+    """Beat distance from tempo change `parent` to a later position `child` (a Snap), counted in
+    parent's metronome: whole measures of parent.metronome beats plus the beat difference."""
+    return (child.measure - parent.snap.measure) * parent.metronome + (child.beat - parent.snap.beat)
+
+
+FBCS = "reamber.algorithms.timing.utils.from_bpm_changes_snap:from_bpm_changes_snap"
+
+
+@loop_unit("C10", FBCS, anchor="for parent_bcs, child_bcs in zip",
+           args=dict(parent_bcs=BcsT(), child_bcs=BcsT(), offset=Real(), bco_s=ListT(BcoT(), 1)))
+class from_snap_accumulate_step:
+    """One iteration of the accumulation loop from ANY state: the running offset advances by the beat
+    distance between the two changes at the parent's beat length and exactly one BpmChangeOffset with the
+    child's bpm / metronome is appended at that offset.  (Unbounded in the number of changes by induction:
+    the loop visits consecutive pairs of the sorted list - zip/slice semantics, A3.)"""
+
+    def requires(parent_bcs, child_bcs, offset, bco_s):
+        return (wf_bcs(parent_bcs) and wf_bcs(child_bcs)
+                and beats_between(parent_bcs, child_bcs.snap) >= 0
+                and (child_bcs.snap.measure > parent_bcs.snap.measure
+                     or (child_bcs.snap.measure == parent_bcs.snap.measure and child_bcs.snap.beat >= parent_bcs.snap.beat)))
+
+    def ensures_offset_is_integrated(parent_bcs, child_bcs, offset, bco_s, result):
+        return eqr((result.offset - offset) * parent_bcs.bpm, 60000 * beats_between(parent_bcs, child_bcs.snap))
+
+    def ensures_one_change_appended(parent_bcs, child_bcs, offset, bco_s, result):
+        return (result.outcome == "normal" and len(result.bco_s) == len(bco_s) + 1
+                and result.bco_s[-1].bpm == child_bcs.bpm and result.bco_s[-1].metronome == child_bcs.metronome
+                and eqr(result.bco_s[-1].offset, result.offset)
+                and result.bco_s[0].offset == bco_s[0].offset and result.bco_s[0].bpm == bco_s[0].bpm)
+
+    def witnesses(rng):
+        for _ in range(200):
+            m = Fraction(rng.choice([3, 4, 5]))
+            m2 = Fraction(rng.choice([3, 4, 5]))
+            p = _mk_bcs(float(rng.choice([60, 120, 177.5])), m, _mk_snap(rng.randrange(3), Fraction(rng.randrange(0, int(m) * 4), 4), m))
+            c = _mk_bcs(float(rng.choice([60, 90, 240])), m2, _mk_snap(p.snap.measure + rng.randrange(0, 3), Fraction(rng.randrange(0, int(m2) * 4), 4), m2))
+            yield dict(parent_bcs=p, child_bcs=c, offset=float(rng.randrange(-500, 5000)), bco_s=[_mk_bco(p.bpm, p.metronome, 0.0)])
+
+
+def T_spec(bcs_sorted, initial, snap):
+    """Piecewise-linear integration: ms of position `snap` under the sorted well-formed changes
+    (start time of each segment accumulated unconditionally; the last change at or before `snap` is active)."""
+    start = initial
+    res = start + beats_between(bcs_sorted[0], snap) * 60000 / bcs_sorted[0].bpm
+    for i in range(1, len(bcs_sorted)):
+        start = start + beats_between(bcs_sorted[i - 1], bcs_sorted[i].snap) * 60000 / bcs_sorted[i - 1].bpm
+        here = start + beats_between(bcs_sorted[i], snap) * 60000 / bcs_sorted[i].bpm
+        res = here if _snap_le(bcs_sorted[i].snap, snap) else res
+    return res
+
+
+def _snap_le(a, b):
+    return a.measure < b.measure or (a.measure == b.measure and a.beat <= b.beat)
+
+
+def _sorted_changes(bcs_s):
+    return all(_snap_le(a.snap, b.snap) and not (a.snap.measure == b.snap.measure and a.snap.beat == b.snap.beat) for a, b in zip(bcs_s[:-1], bcs_s[1:]))
+
+
+def _rand_changes(rng, n, metro=None, on_measure=False):
+    out = []
+    pos = Fraction(0)
+    for i in range(n):
+        m = Fraction(metro or rng.choice([3, 4, 5]))
+        if i == 0:
+            sn = _mk_snap(0, Fraction(0), m)
+            measure = 0
+        else:
+            measure = out[-1].snap.measure + rng.randrange(1, 4)
+            sn = _mk_snap(measure, Fraction(0) if on_measure else Fraction(rng.randrange(0, int(m) * 4), 4), m)
+        out.append(_mk_bcs(float(rng.choice([60, 90, 120, 177.5, 240])), m, sn))
+    return out
+
+
+@contract("C10", FBCS, args=dict(initial_offset=Real(), bcs_s=Choice([ListT(BcsT(), n) for n in (1, 2, 3)]), reseat=Const(False)))
+class from_bpm_changes_snap_noreseat:
+    max_paths = 4000
+
+    """Whole function at 1..3 changes in ANY list order (shape-bounded; the unbounded argument is the
+    step unit above): result k has the k-th sorted change's bpm/metronome and the integrated offset."""
+
+    assumes = ["shape-bounded: 1..3 tempo changes (all values symbolic); unbounded count by from_snap_accumulate_step"]
+
+    def requires(initial_offset, bcs_s, reseat):
+        return (all(wf_bcs(b) for b in bcs_s)
+                and all(not (a.snap.measure == b.snap.measure and a.snap.beat == b.snap.beat) for i, a in enumerate(bcs_s) for b in bcs_s[i + 1:])
+                and any(b.snap.measure == 0 and b.snap.beat == 0 for b in bcs_s))
+
+    def ensures_integration(initial_offset, bcs_s, reseat, result):
+        s = sorted(bcs_s, key=lambda b: (b.snap.measure, b.snap.beat))
+        bco = result.bpm_changes_offset
+        return (len(bco) == len(bcs_s)
+                and all(bco[k].bpm == s[k].bpm and bco[k].metronome == s[k].metronome for k in range(len(s)))
+                and all(eqr(bco[k].offset, T_spec(s, initial_offset, s[k].snap)) for k in range(len(s))))
+
+    def witnesses(rng):
+        for _ in range(150):
+            cs = _rand_changes(rng, rng.randrange(1, 4))
+            rng.shuffle(cs)
+            yield dict(initial_offset=float(rng.randrange(-2000, 2000)), bcs_s=cs, reseat=False)
+
+
+# ----------------------------------------------------------------------------- Snapper (abstract table)
+
+SNAPPER = "reamber.algorithms.timing.utils.Snapper:Snapper"
+
+
+class SnapperT(Ty):
+    """A Snapper whose table is abstract: functions val/num/den on [0, N) with the invariants I1-I4 (checked
+    natively on the real default table every run by `snapper_table_invariants`)."""
+
+    def make(self, name, ctx):
+        import z3
+        from pyvc.npmodel import SFuncArray
+        from pyvc.engine import SObj
+        from pyvc.dsl import resolve
+
+        from pyvc.npmodel import TableTheory
+
+        N = z3.Int(name + ".N")
+        val = z3.Function(name + ".val", z3.IntSort(), z3.RealSort())
+        num = z3.Function(name + ".num", z3.IntSort(), z3.IntSort())
+        den = z3.Function(name + ".den", z3.IntSort(), z3.IntSort())
+        th = TableTheory(ctx)
+        ctx.assume(N >= 2)
+        ctx.assume(val(0) == 0)
+        ctx.assume(val(N - 1) == 1)
+        inr = lambda i: z3.And(0 <= i, i < N)
+        th.add_binary(lambda i, j: z3.Implies(z3.And(inr(i), inr(j), i < j), val(i) < val(j)))  # I2
+        th.add_unary(lambda i: z3.Implies(inr(i), z3.And(den(i) >= 1, z3.ToReal(num(i)) / z3.ToReal(den(i)) == val(i))))  # I3
+        th.add_unary(lambda i: z3.Implies(z3.And(0 <= i, i < N - 1), val(i + 1) - val(i) <= z3.RealVal("1/96")))  # I4
+        th.add_unary(lambda i: z3.Implies(z3.And(0 < i, i < N), val(i) - val(i - 1) <= z3.RealVal("1/96")))  # I4 (other side)
+        th.touch(z3.IntVal(0))
+        th.touch(N - 1)
+        return SObj(resolve(SNAPPER), {"val": SFuncArray(val, N, th), "num": SFuncArray(num, N, th), "den": SFuncArray(den, N, th)})
+
+    def concretize(self, name, model):
+        from reamber.algorithms.timing.utils.Snapper import Snapper
+
+        return Snapper()
+
+
+def _grid(self, j):
+    """Native/ghost view of grid point j of a snapper."""
+    return self.val[j]
+
+
+@contract("C10", SNAPPER + ".snap", args=dict(self=SnapperT(), beat=Real("fraction"), j=Int()))
+class snapper_snap:
+    """Nearest allowed fraction (for EVERY grid index j), within 1/192, fixed point on the grid."""
+
+    assumes = ["Snapper table abstracted by invariants I1-I4 (0 and 1 present, strictly increasing, val=num/den, max gap 1/96); "
+               "checked natively on the real default table by snapper_table_invariants; Snapper.__init__ (numpy) is not verified"]
+
+    def requires(self, beat, j):
+        return 0 <= j and j < len(self.val)
+
+    def ensures_nearest(self, beat, j, result):
+        fl = floor(beat)
+        return abs(result - beat) <= abs(self.val[j] + fl - beat)
+
+    def ensures_within_grid_resolution(self, beat, j, result):
+        return abs(result - beat) <= Fraction(1, 192)
+
+    def ensures_fixed_point_on_grid(self, beat, j, result):
+        return implies(beat - floor(beat) == self.val[j], result == beat)
+
+    def ensures_same_beat_cell(self, beat, j, result):
+        return floor(beat) <= result and result <= floor(beat) + 1
+
+    def witnesses(rng):
+        from reamber.algorithms.timing.utils.Snapper import Snapper
+
+        s = Snapper()
+        n = len(s.val)
+        for _ in range(300):
+            k = rng.randrange(n)
+            if rng.random() < 0.4:
+                b = Fraction(int(s.num[k]), int(s.den[k])) + rng.randrange(-2, 5)
+            else:
+                b = Fraction(rng.randrange(-3000, 9000), rng.choice([1000, 997, 7, 192, 384]))
+            yield dict(self=s, beat=b, j=rng.randrange(n))
+
+
+@contract("C10", SNAPPER + ".snap", args=dict(self=SnapperT(), beat=Real("fraction")), returns=Real("fraction"))
+class snapper_snap_bounds:
+    """The index-free part of the Snapper contract, in the form callers use modularly."""
+
+    assumes = ["Snapper table abstract (I1-I4)"]
+
+    def ensures_within_grid_resolution(self, beat, result):
+        return abs(result - beat) <= Fraction(1, 192)
+
+    def ensures_same_beat_cell(self, beat, result):
+        return floor(beat) <= result and result <= floor(beat) + 1
+
+    def witnesses(rng):
+        from reamber.algorithms.timing.utils.Snapper import Snapper
+
+        s = Snapper()
+        for _ in range(100):
+            yield dict(self=s, beat=Fraction(rng.randrange(-3000, 9000), rng.choice([1000, 997, 7, 192, 384])))
+
+
+@bounded("C10", note="invariants I1-I4 of the REAL default Snapper table (complete for the one configuration the library uses)")
+def snapper_table_invariants(rep):
+    from reamber.algorithms.timing.utils.Snapper import Snapper
+
+    s = Snapper()
+    n = len(s.val)
+    rep.bound = f"the default table, all {n} entries"
+    rep.rule = "each table entry is a case; non-trivial: every entry"
+    rep.exhaustive = True
+    vals = [Fraction(int(a), int(b)) for a, b in zip(s.num, s.den)]
+    for k in range(n):
+        rep.case(dict(k=k, num=int(s.num[k]), den=int(s.den[k])))
+        rep.expect(int(s.den[k]) >= 1 and abs(float(vals[k]) - float(s.val[k])) < 1e-12, "I3_val_is_num_over_den", dict(k=k), f"{s.val[k]} vs {vals[k]}")
+        if k:
+            rep.expect(vals[k - 1] < vals[k], "I2_strictly_increasing", dict(k=k), f"{vals[k-1]} !< {vals[k]}")
+            rep.expect(vals[k] - vals[k - 1] <= Fraction(1, 96), "I4_max_gap", dict(k=k), f"gap {vals[k]-vals[k-1]}")
+    rep.expect(vals[0] == 0 and vals[-1] == 1, "I1_ends", dict(first=str(vals[0]), last=str(vals[-1])), "table must start at 0 and end at 1")
+    have = set(vals)
+    for d in range(1, 97):
+        for nn in range(0, d):
+            rep.expect(Fraction(nn, d) in have, "grid_contains_every_fraction_up_to_96", dict(n=nn, d=d), "missing grid point")
+
+
+# ----------------------------------------------------------------------------- TimingMap.offsets
+
+TM = "reamber.algorithms.timing.TimingMap:TimingMap"
+
+
+def _mk_tm(bpm_changes_offset, snapper=None):
+    from reamber.algorithms.timing.TimingMap import TimingMap
+
+    return TimingMap(bpm_changes_offset=bpm_changes_offset)
+
+
+def TmT(n):
+    return Obj(TM, build=_mk_tm, bpm_changes_offset=ListT(BcoT(), n), snapper=SnapperT())
+
+
+def wf_bco(b):
+    return b.bpm > 0 and b.metronome > 0
+
+
+def snap_ge(a, b):
+    return a.measure > b.measure or (a.measure == b.measure and a.beat >= b.beat)
+
+
+def active_offset(bco, bcs, snap):
+    """ms of `snap`: offset of the last change at or before it + beat distance at that change's tempo."""
+    res = bco[0].offset + beats_between(bcs[0], snap) * 60000 / bcs[0].bpm
+    for i in range(1, len(bcs)):
+        res = (bco[i].offset + beats_between(bcs[i], snap) * 60000 / bcs[i].bpm) if snap_ge(snap, bcs[i].snap) else res
+    return res
+
+
+def weak(s):
+    """What the re-derived change snaps satisfy: non-negative measure and beat (a change in the middle of a
+    measure under a different metronome is not re-normalised by bpm_changes_offset_to_snap)."""
+    return s.measure >= 0 and s.beat >= 0 and s.metronome > 0
+
+
+def wf_bcs_weak(b):
+    return b.bpm > 0 and b.metronome > 0 and weak(b.snap) and b.snap.metronome == b.metronome
+
+
+@contract("C10", SNAP + ".from_offset", args=dict(offset=Real(), bco=BcoT(), bcs=BcsT(), snapper=SnapperT()), returns=SnapT(),
+          use=["snapper_snap_bounds", "snap_post_init"])
+class snap_from_offset:
+    """ms -> position inside one tempo segment: the beat distance from the segment start is the elapsed
+    time in beats, moved by at most 1/192 beat (nearest grid fraction); the result is normalised."""
+
+    assumes = ["Snapper table abstract (I1-I4); Snapper.snap executed from its real source"]
+
+    def requires(offset, bco, bcs, snapper):
+        return wf_bco(bco) and wf_bcs_weak(bcs) and bcs.metronome == bco.metronome and bcs.bpm == bco.bpm and offset >= bco.offset
+
+    def ensures_position(offset, bco, bcs, snapper, result):
+        d = (result.measure - bcs.snap.measure) * bco.metronome + (result.beat - bcs.snap.beat)
+        want = (offset - bco.offset) * bco.bpm / 60000
+        return abs(d - want) <= Fraction(1, 192)
+
+    def ensures_normal(offset, bco, bcs, snapper, result):
+        return normal(result) and result.metronome == bco.metronome and snap_ge(result, bcs.snap)
+
+    def witnesses(rng):
+        from reamber.algorithms.timing.utils.Snapper import Snapper
+
+        sn = Snapper()
+        for _ in range(200):
+            m = Fraction(rng.choice([3, 4, 5]))
+            bpm = float(rng.choice([60, 120, 177.5]))
+            bco = _mk_bco(bpm, m, float(rng.randrange(-500, 500)))
+            bcs = _mk_bcs(bpm, m, _mk_snap(rng.randrange(3), Fraction(rng.randrange(0, int(m) * 4), 4), m))
+            yield dict(offset=bco.offset + rng.uniform(0, 9000), bco=bco, bcs=bcs, snapper=sn)
+
+
+@contract("C10", TM + ".bpm_changes_snap", args=dict(self=Choice([TmT(n) for n in (1, 2, 3)])),
+          returns=lambda loc: ListT(BcsT(), len(loc["self"].fields["bpm_changes_offset"])), use=["snap_from_offset"])
+class bpm_changes_snap_shape:
+    """Interface contract used modularly by offsets/snaps: the snap-form list is parallel to the (sorted)
+    offset-form list, well formed, starts at 0.0 and is non-decreasing in position.  Requires the offset list
+    sorted (TimingMap's constructors sort it) so that positions do not go backwards."""
+
+    assumes = ["shape-bounded: 1..3 tempo changes; Snapper table abstract (I1-I4)"]
+    pure = True  # for an already sorted offset list the in-place sort is the identity
+
+    def requires(self):
+        b = self.bpm_changes_offset
+        return all(wf_bco(x) for x in b) and all(x.offset < y.offset for x, y in zip(b[:-1], b[1:]))
+
+    def ensures_parallel(self, result):
+        b = self.bpm_changes_offset
+        return len(result) == len(b) and all(r.bpm == x.bpm and r.metronome == x.metronome for r, x in zip(result, b))
+
+    def ensures_well_formed_and_ordered(self, result):
+        return (all(wf_bcs_weak(r) for r in result) and result[0].snap.measure == 0 and result[0].snap.beat == 0
+                and all(snap_ge(y.snap, x.snap) for x, y in zip(result[:-1], result[1:])))
+
+    def witnesses(rng):
+        for _ in range(100):
+            n = rng.randrange(1, 4)
+            t = float(rng.randrange(-1000, 1000))
+            bco = []
+            for _ in range(n):
+                m = Fraction(rng.choice([3, 4, 5]))
+                bpm = float(rng.choice([60, 120, 200]))
+                bco.append(_mk_bco(bpm, m, t))
+                t += float(rng.randrange(1, 40)) * 60000 / bpm / 4
+            yield dict(self=_mk_tm(bco))
+
+
+@contract("C10", TM + ".offsets", args=dict(self=Choice([TmT(n) for n in (1, 2)]), snaps=Choice([ListT(SnapT(), m) for m in (1, 2)])),
+          use=["bpm_changes_snap_shape"])
+class offsets_in_query_order:
+    """result[i] is the ms position of the i-th query (any order, duplicates allowed): offset of the active
+    change + beat distance at its tempo.  bpm_changes_snap() is used through its contract."""
+
+    max_paths = 6000
+    args_thorough = dict(self=Choice([TmT(n) for n in (1, 2, 3)]), snaps=Choice([ListT(SnapT(), m) for m in (1, 2, 3)]))
+    assumes = ["shape-bounded: 1..2 (thorough: 3) tempo changes x 1..2 (thorough: 3) queries, all values symbolic; arbitrary query count by offsets_sweep_step + argsort un-permutation (A2)"]
+
+    def requires(self, snaps):
+        b = self.bpm_changes_offset
+        return (all(wf_bco(x) for x in b) and all(x.offset < y.offset for x, y in zip(b[:-1], b[1:]))
+                and all(normal(s) for s in snaps))
+
+    def requires_domain(self, snaps):
+        # a change keeps the metronome or sits on a measure line, i.e. every re-derived change position is
+        # normalised (what a mid-measure metronome change means is not defined by the property)
+        return all(normal(c.snap) for c in self.bpm_changes_snap())
+
+    def native_call(self, snaps):
+        return list(self.offsets(list(snaps)))
+
+    def ensures_each_query_integrated(self, snaps, result):
+        bcs = self.bpm_changes_snap()
+        return len(result) == len(snaps) and all(eqr(result[i], active_offset(self.bpm_changes_offset, bcs, snaps[i])) for i in range(len(snaps)))
+
+    def witnesses(rng):
+        for _ in range(150):
+            n = rng.randrange(1, 4)
+            cs = _rand_changes(rng, n, metro=4)
+            from reamber.algorithms.timing.TimingMap import TimingMap
+
+            tm = TimingMap.from_bpm_changes_snap(float(rng.randrange(-500, 500)), cs, reseat=False)
+            qs = [_mk_snap(rng.randrange(0, 8), Fraction(rng.randrange(0, 16), 4), Fraction(4)) for _ in range(rng.randrange(1, 4))]
+            yield dict(self=tm, snaps=qs)
+
+
+
+def _sweep_args(n):
+    return dict(self=TmT(n), bcs_s=ListT(BcsT(), n), snap=SnapT(), bc_i=Int(), offsets=ListT(Real(), 0))
+
+
+def _sweep_shapes():
+    from pyvc.dsl import DictT
+
+    return Choice([1, 2, 3])
+
+
+@loop_unit("C10", TM + ".offsets", anchor="for snap in reversed(snaps[sorter])",
+           args=dict(n=Choice([1, 2, 3]), self=Choice([TmT(n) for n in (1, 2, 3)]), bcs_s=Choice([ListT(BcsT(), n) for n in (1, 2, 3)]),
+                     snap=SnapT(), bc_i=Int(), offsets=ListT(Real(), 0)))
+class offsets_sweep_step:
+    """One iteration of the reverse sweep from ANY state satisfying the sweep invariant (so: any number of
+    queries).  Invariant: bc_i is a valid negative index and every change after bc_i lies strictly after the
+    current query (queries arrive in non-increasing order).  The step appends the query's ms position and
+    re-establishes the invariant for every later (smaller or equal) query."""
+
+    max_paths = 4000
+    assumes = ["shape-bounded in the number of tempo changes (1..3), unbounded in the number of queries"]
+
+    def requires(n, self, bcs_s, snap, bc_i, offsets):
+        b = self.bpm_changes_offset
+        return (len(b) == n and len(bcs_s) == n
+                and all(wf_bco(x) for x in b) and all(wf_bcs_weak(c) and normal(c.snap) for c in bcs_s)
+                and all(c.bpm == x.bpm and c.metronome == x.metronome for c, x in zip(bcs_s, b))
+                and bcs_s[0].snap.measure == 0 and bcs_s[0].snap.beat == 0
+                and all(snap_ge(y.snap, x.snap) for x, y in zip(bcs_s[:-1], bcs_s[1:]))
+                and normal(snap)
+                and -n <= bc_i and bc_i <= -1
+                and all(implies(j > n + bc_i, not snap_ge(snap, bcs_s[j].snap)) for j in range(n)))
+
+    def ensures_appends_the_query_position(n, self, bcs_s, snap, bc_i, offsets, result):
+        return (result.outcome == "normal" and len(result.offsets) == len(offsets) + 1
+                and eqr(result.offsets[-1], active_offset(self.bpm_changes_offset, bcs_s, snap)))
+
+    def ensures_invariant_for_later_queries(n, self, bcs_s, snap, bc_i, offsets, result):
+        k = result.bc_i
+        return (-n <= k and k <= -1
+                and all(implies(j > n + k, not snap_ge(snap, bcs_s[j].snap)) for j in range(n))
+                and all(implies(j == n + k, snap_ge(snap, bcs_s[j].snap)) for j in range(n)))
+
+    def witnesses(rng):
+        from reamber.algorithms.timing.TimingMap import TimingMap
+
+        for _ in range(150):
+            n = rng.randrange(1, 4)
+            cs = _rand_changes(rng, n, metro=4, on_measure=rng.random() < 0.5)
+            tm = TimingMap.from_bpm_changes_snap(float(rng.randrange(-500, 500)), cs, reseat=False)
+            bcs = tm.bpm_changes_snap()
+            q = _mk_snap(rng.randrange(0, 8), Fraction(rng.randrange(0, 16), 4), Fraction(4))
+            # a state satisfying the invariant: bc_i anywhere at or after the active change
+            act = max(j for j in range(n) if snap_ge(q, bcs[j].snap))
+            bc_i = rng.randrange(act, n) - n
+            yield dict(n=n, self=tm, bcs_s=bcs, snap=q, bc_i=bc_i, offsets=[])
